@@ -558,6 +558,15 @@ func (st *state) reader(fn, load *core.Fn) {
 		for _, cons := range consumers {
 			var eq []form
 			var weak []string
+			unknown := false
+			whole := func(e ast.Expr) bool { // the complete field name, not a part of it
+				if rootIdent(info, e) != nil {
+					return true
+				}
+				_, isIdx := ast.Unparen(e).(*ast.IndexExpr)
+				_, isAssert := ast.Unparen(e).(*ast.TypeAssertExpr)
+				return isIdx || isAssert
+			}
 			for _, t := range tests {
 				t := t
 				dom, _ := x.OnlyVia(cfgq.Point{}, cons, func(f cfgq.Fact) bool { return f.Expr == t.expr && f.Val == t.val })
@@ -567,9 +576,13 @@ func (st *state) reader(fn, load *core.Fn) {
 				switch e := ast.Unparen(t.expr).(type) {
 				case *ast.BinaryExpr:
 					if (e.Op == token.EQL) == t.val && (e.Op == token.EQL || e.Op == token.NEQ) {
-						other := e.Y
+						other, name := e.Y, e.X
 						if mentionsName(e.Y) {
-							other = e.X
+							other, name = e.X, e.Y
+						}
+						if !whole(name) {
+							unknown = true
+							continue
 						}
 						eq = append(eq, evalName(info, body, other, 3))
 						continue
@@ -590,6 +603,7 @@ func (st *state) reader(fn, load *core.Fn) {
 						continue
 					}
 				}
+				unknown = true
 			}
 			switch {
 			case len(eq) > 0:
@@ -608,6 +622,8 @@ func (st *state) reader(fn, load *core.Fn) {
 					c.Check("R1.reader", key, cons.Pos(), okShape,
 						fmt.Sprintf("the %s must be read from the field the sender writes (%q); fetchCheckpoint compares the field name with %q, so what the sender stored is not read back", role, want, f))
 				}
+			case unknown:
+				c.Undecidedf("R1.reader", key, cons.Pos(), "the read of the %s is guarded by a test on the field name that is neither an equality nor a strings/bytes predicate", role)
 			case len(weak) > 0:
 				c.Failf("R1.reader", key, cons.Pos(), "the %s is taken from every field that satisfies %s instead of the field equal to %q: with sources h:6379 and h:63791 checkpointing into the same target database, resuming h:6379 reads h:63791-%s (a foreign, possibly larger offset / foreign run id); a source address containing the word %q matches every field",
 					role, strings.Join(weak, " && "), orDash(want), constPart(want), constPart(want))
